@@ -1419,7 +1419,7 @@ func c12NumericKeywordsRead(ctx *Ctx, r *Report) {
 // Default of the variable that receives it.
 func c12CollectionDefaultsRead(ctx *Ctx, r *Report) {
 	n := 0
-	for _, rel := range []string{"internal/jsonschema", "internal/openapi"} {
+	for _, rel := range []string{"internal/jsonschema", "internal/openapi", "internal/simplecue"} {
 		p := ctx.Pkg(rel)
 		if p == nil {
 			r.Undecided("anchor lost: " + rel)
@@ -1440,8 +1440,15 @@ func c12CollectionDefaultsRead(ctx *Ctx, r *Report) {
 						return true
 					}
 					fn := callee(info, c)
-					if fn == nil || fn.Pkg() == nil || !strings.HasSuffix(fn.Pkg().Path(), "internal/ast") || (fn.Name() != "NewMap" && fn.Name() != "NewArray") {
+					if fn == nil || fn.Pkg() == nil || !strings.HasSuffix(fn.Pkg().Path(), "internal/ast") || (fn.Name() != "NewMap" && fn.Name() != "NewArray" && fn.Name() != "Any") {
 						return true
+					}
+					// `any` as the answer of a walker (the type of a property that declares none), not as a placeholder for
+					// the items of a list
+					if fn.Name() == "Any" {
+						if _, isReturn := parents[ast.Node(c)].(*ast.ReturnStmt); !isReturn {
+							return true
+						}
 					}
 					carried := false
 					for _, a := range c.Args {
